@@ -22,7 +22,8 @@ UC_CFG = '''CONSTANTS
 
 
 def race_reports(text):
-    """Split race detector output into reports; key = exported Server methods on the two stacks."""
+    """Split race detector output into reports; key = exported Server methods on the two stacks (or, for races
+    below the connection handlers, the outermost function of agent/yubiagent that is not harness code)."""
     out = []
     for rep in text.split("WARNING: DATA RACE")[1:]:
         rep = rep.split("==================")[0]
@@ -31,9 +32,104 @@ def race_reports(text):
         names = []
         for st in stacks[:2]:
             ms = re.findall(r"shimagent\.\(\*Server\)\.([A-Z]\w*)\(\)", st)
-            names.append(ms[-1] if ms else None)   # outermost exported method on that stack
+            if not ms:
+                # frames come in pairs "function()\n    file:line"; drop harness frames (zz_verif*, verifh)
+                fr = re.findall(r"^\s+(\S+)\(\)\n\s+(\S+):\d+", st, re.M)
+                ms = [f.split("/")[-1] for f, src in fr if "ysshra/agent/" in f and "zz_verif" not in src and "/verifh/" not in src]
+            names.append(ms[-1] if ms else None)   # outermost one on that stack
         out.append((names, rep.strip()[:4000]))
     return out
+
+
+CONN_CFG = """SPECIFICATION TraceSpec
+CONSTANTS
+  Conns = {1,2,3,4,5,6,7,8,9,10,11,12,13,14,15,16}
+  MaxReq = 0
+  Shared = FALSE
+INVARIANT OwnReply
+POSTCONDITION TraceAccepted
+CHECK_DEADLOCK FALSE
+"""
+
+
+def conn_stage(prop, tier, verdict):
+    """Connection level: K client connections served by the real yubiagent.ServeAgent on one real shim.
+    ConnServe.tla is model-checked (and its broken variant must fail); the recorded events are validated by TLC."""
+    info = {}
+    # ---- the model
+    mwd = vlib.workdir(prop, "mc_conn")
+    info["states"] = info["transitions"] = 0
+    for cfg in (["MCConnServe.cfg"] if tier == "quick" else ["MCConnServe.cfg", "MCConnServe_t.cfg"]):
+        r = vlib.tlc(mwd, "ConnServe.tla", cfg, workers=8, timeout=3000)
+        if r.violated or r.error or "Model checking completed. No error" not in r.stdout:
+            raise NoVerdict("ConnServe: the MODEL fails under %s (%s): %s" % (cfg, r.violated, r.error or r.stdout[-1500:]))
+        info["states"] += r.distinct
+        info["transitions"] += r.generated
+    rb = vlib.tlc(mwd, "ConnServe.tla", "MCConnServe_broken.cfg", workers=4, timeout=600)
+    if rb.violated != "OwnReply":
+        raise NoVerdict("ConnServe: the broken variant (recycled buffer) does not violate OwnReply - the invariant is vacuous")
+    log("[tlc] ConnServe: %d generated / %d distinct, %.1fs; broken variant violates OwnReply as it must" % (r.generated, r.distinct, r.wall))
+    # ---- the real code
+    binp = vlib.build_harness("connconc", "agent/yubiagent",
+                              {"agent/yubiagent/zz_verif_connconc_test.go": os.path.join(vlib.HARNESS, "connconc", "zz_verif_connconc_test.go")},
+                              race=True, outdir=os.path.join(vlib.OUT, prop, "bin"))
+    wd = vlib.workdir(prop, "conn")
+    outp = os.path.join(wd, "conn_all.ndjson")
+    env = {"VERIF_OUT": outp, "VERIF_TIER": tier, "VERIF_CONN_ROUNDS": "14" if tier == "quick" else "80", "GORACE": "halt_on_error=0"}
+    rc, out, err, summ = vlib.run_harness(binp, "TestVerifConnConc", env, timeout=3000)
+    text = err + out
+    real = 0
+    if not summ:
+        m = re.search(r"fatal error: (concurrent map[^\n]*|all goroutines are asleep[^\n]*)", text)
+        if m:
+            verdict.violation("crash:" + m.group(1), "the process serving the connections died: " + m.group(0),
+                              vlib.save_replay(prop, "conn_crash.txt", text[-6000:]))
+            return info, 1
+        raise NoVerdict("connection-level harness did not finish (rc=%d):\n%s\n%s" % (rc, out[-3000:], err[-3000:]))
+    for names, rtext in race_reports(text):
+        if not any(names):
+            raise NoVerdict("the race detector reports a race outside agent/shimagent and agent/yubiagent (harness race?):\n" + rtext)
+        k = "race:" + "+".join(sorted(n or "?" for n in names))
+        verdict.violation(k, "data race between connection handlers reported by the race detector",
+                          vlib.save_replay(prop, "race_%s.txt" % re.sub(r"\W", "_", k), rtext))
+        real += 1
+    evs = vlib.read_ndjson(outp)
+    rounds = []
+    for e in evs:
+        if e["ev"] == "reset":
+            rounds.append([])
+        rounds[-1].append(e)
+    info.update(rounds=len(rounds), events=len(evs), requests=summ.get("requests", 0))
+    rejected = 0
+    for _ in range(8):
+        vlib.write_ndjson(os.path.join(wd, "conn.ndjson"), [e for rd in rounds for e in rd])
+        with open(os.path.join(wd, "conn.cfg"), "w") as f:
+            f.write(CONN_CFG)
+        rt = vlib.tlc(wd, "TraceConn.tla", "conn.cfg", workers=1, timeout=3000)
+        if "Model checking completed. No error" in rt.stdout and not rt.violated and not rt.error:
+            break
+        m = re.search(r'^<<"REJ", (\d+), "(.*)">>$', rt.stdout, re.M)
+        if not m and not rt.violated:
+            raise NoVerdict("trace validation against ConnServe failed: %s" % (rt.error or rt.stdout[-2000:]))
+        if m:
+            line = json.loads(json.loads('"' + m.group(2) + '"'))
+        else:
+            line = {"ev": "invariant " + str(rt.violated), "round": -1, "shape": ""}
+        bad = [i for i, rd in enumerate(rounds) if rd[0]["round"] == line.get("round")]
+        k = "conn:%s:%s" % (line["ev"], re.sub(r"[^a-z-].*", "", line.get("shape") or ""))
+        what = {"up": "the underlying agent received a request that is not the pending request of that connection (altered, duplicated or never sent)",
+                "recv": "a client did not receive the reply to its own request",
+                "hang": "connections did not all complete (watchdog)"}.get(line["ev"], "the observed event is not a step of ConnServe")
+        verdict.violation(k, what + ": " + json.dumps(line),
+                          vlib.save_replay(prop, "conn_round%s.ndjson" % line.get("round"), rounds[bad[0]] if bad else [line]))
+        real += 1
+        rejected += 1
+        if not bad:
+            break
+        del rounds[bad[0]]
+    info["rounds_rejected"] = rejected
+    log("[conn] %d rounds, %d events, %d requests; %d rounds rejected by ConnServe" % (info["rounds"], info["events"], info["requests"], rejected))
+    return info, real
 
 
 def run(prop, tier):
@@ -46,6 +142,14 @@ def run(prop, tier):
            "VERIF_CONC_BATCHES": "80" if tier == "quick" else "600", "GORACE": "halt_on_error=0"}
     rc, out, err, summ = vlib.run_harness(binp, "TestVerifConc", env, timeout=3000)
     if not summ:
+        m = re.search(r"fatal error: (concurrent map[^\n]*)", err + out)
+        if m:
+            verdict.violation("crash:" + m.group(1), "the process died under concurrent shim operations: " + m.group(0),
+                              vlib.save_replay(prop, "conc_crash.txt", (err + out)[-6000:]))
+            rcode = verdict.finish()
+            vlib.write_evidence(prop, tier, "model_checking", {"states": 0, "transitions": 0, "traces_validated_against_impl": 0, "samples": [["crash"]]},
+                                ["the run ended with a fatal runtime error of the process under test"], time.time() - t0, len(verdict.violations))
+            return rcode
         raise NoVerdict("concurrency harness did not finish (rc=%d):\n%s\n%s" % (rc, out[-3000:], err[-3000:]))
     recs = vlib.read_ndjson(outp)
     table = [r for r in recs if r["ev"] == "measure"][0]["table"]
@@ -161,21 +265,25 @@ def run(prop, tier):
     log("[lin] %d batches searched, %d without a sequential explanation (%d states, %.1fs)" % (len(lin), len(nolin), rl.distinct, rl.wall))
 
     real += len([r for r in table if r.get("hang")])
+    conn_info, conn_real = conn_stage(prop, tier, verdict)
+    real += conn_real
     if model_viol and real == 0:
         raise NoVerdict("the model with the measured lock table violates %s (%s) but no race, overlap, hang or unexplained batch was "
                         "observed on the real code: counterexample not reproduced" % (model_viol["invariant"], model_viol["ops"]))
     # universe consistency between harness and spec
     un = vlib.tlc_json_lines(rl.stdout, "UN")
-    cov = {"states": states + rl.distinct, "transitions": trans + rl.generated, "traces_validated_against_impl": len(lin),
+    cov = {"states": states + rl.distinct + conn_info.get("states", 0), "transitions": trans + rl.generated + conn_info.get("transitions", 0),
+           "traces_validated_against_impl": len(lin) + conn_info.get("rounds", 0) - conn_info.get("rounds_rejected", 0),
            "samples": [{"lock_table": mode, "raw": rawk}] + [{"batch": [(o["op"], o["arg"], o["res"]["ok"]) for o in b["ops"]], "final_under": b["final"]["u"], "final_mem": b["final"]["m"]} for b in lin[:3]],
            "evaluations": len(exps) + len(batches), "distinct_nontrivial": len(set((e["A"], e["B"], e["hold"]) for e in exps if e["reached"])),
            "rule": "forced-overlap experiments (A suspended inside its k-th upstream request, B started) for every ordered pair of operation kinds; distinct_nontrivial = distinct (A, B, k) reached; concurrent batches of 2..16 goroutines",
            "model": {"threads": threads, "lock_table_measured": mode, "model_violation": model_viol},
-           "race_reports": len(reps), "batches_linearised": len(lin), "batches_total": len(batches), "experiments": len(exps)}
+           "connection_level": conn_info, "race_reports": len(reps), "batches_linearised": len(lin), "batches_total": len(batches), "experiments": len(exps)}
     rcode = verdict.finish()
     vlib.write_evidence(prop, tier, "model_checking", cov,
                         ["Prog (segments per operation) is transcribed by reading shimserver.go; LockMode and raw/call are measured",
                          "the Go race detector and the connection monitor are observers reproducing model counterexamples on the code",
+                         "connection level: 2..8 (thorough: up to 16) client connections served by the real ServeAgent on one shim; every recorded event is validated against ConnServe.tla by TLC",
                          "16-goroutine batches are checked for races/overlap/hangs; batches of <= 7 (quick) / 9 (thorough) operations are linearised by TLC"],
                         time.time() - t0, len(verdict.violations))
     return rcode
